@@ -37,8 +37,9 @@ type cfg struct {
 	RcvBuf    int
 	LB        gnet.LoadBalancing
 	Ticker    bool
-	Client    bool // gnet is the client side (Client.Dial/Enroll); the harness listens
-	Rotate    bool // start with gnet.Rotate and a second listener of another network
+	Client    bool   // gnet is the client side (Client.Dial/Enroll); the harness listens
+	Rotate    bool   // start with gnet.Rotate and a second listener of another network
+	LinkLocal string // udp6/tcp6: listen on this link-local address ("fe80::1%eth0") instead of ::1
 }
 
 func (c cfg) String() string {
@@ -161,6 +162,9 @@ func (c cfg) listenAddr() string {
 	case "udp":
 		return fmt.Sprintf("udp://127.0.0.1:%d", probe("udp4", "127.0.0.1"))
 	case "udp6":
+		if c.LinkLocal != "" {
+			return fmt.Sprintf("udp6://[%s]:%d", c.LinkLocal, probe("udp6", c.LinkLocal))
+		}
 		return fmt.Sprintf("udp6://[::1]:%d", probe("udp6", "::1"))
 	case "unix":
 		return "unix://" + unixPath("srv")
@@ -276,6 +280,9 @@ func startServerOnce(c cfg, mon *monitor) (*engineLife, error) {
 				got = fmt.Sprintf("127.0.0.1:%d", a.Port)
 			case *unix.SockaddrInet6:
 				got = fmt.Sprintf("[::1]:%d", a.Port)
+				if c.LinkLocal != "" {
+					got = fmt.Sprintf("[%s]:%d", c.LinkLocal, a.Port)
+				}
 			case *unix.SockaddrUnix:
 				got = a.Name
 			}
